@@ -22,6 +22,14 @@ type lcSide struct {
 	wire    [][]byte // everything this side ever emitted, in order
 	secrets []lcSecret
 	queued  [][]byte // texts queued under require-encryption, in order
+	// C03, keystream: every data message of the current session of this side by (sender key id,
+	// recipient key id, counter); the AES-CTR key depends on the key ids only, the counter is the nonce
+	ctrs map[[3]uint64]lcData
+}
+
+type lcData struct {
+	whole []byte // the encoded message (fragments reassembled)
+	kind  string
 }
 
 type lcSecret struct {
@@ -36,6 +44,51 @@ type lcLink struct {
 	delivered map[string]int // plaintexts returned by either Receive
 	order     [][]byte       // delivery order at each side is checked through `queued`
 	g         *gen
+	op        string // what the next call is, for the descriptions ("" = Receive)
+}
+
+// C03 "decipherable only with the session's DH secrets": AES-CTR under a key that is a function of
+// the two DH keys named by the key ids, with the message counter as nonce. Two different data messages
+// of one sender under the same (sender key id, recipient key id, counter) share the keystream: the XOR
+// of the two ciphertexts is the XOR of the two plaintexts, no secret needed. A completed key exchange
+// (GoneSecure / StillSecure, new session id) starts new DH keys and restarts ids and counter.
+func (ll *lcLink) keystream(p *party, op string, ts []otr3.ValidMessage, evs string, newSSID bool, waiting [][]byte) {
+	s := ll.side(p)
+	rekeyed := strings.Contains(evs, "sec:1") || strings.Contains(evs, "sec:2") || newSSID
+	if rekeyed || s.ctrs == nil {
+		s.ctrs = map[[3]uint64]lcData{}
+	}
+	if op == "" {
+		op = "reply of Receive"
+		if rekeyed {
+			op = "released by the Receive that completed the key exchange"
+			if len(waiting) > 0 {
+				op += fmt.Sprintf(" (%d text(s) waiting: %.40q)", len(waiting), waiting)
+			}
+		}
+	}
+	n := 0
+	for _, whole := range reassembleAll(ts) {
+		sk, rk, ctr, ok := otr3.VerifDataIDs(whole)
+		if !ok {
+			continue
+		}
+		n++
+		olog.ok("C03")
+		k := [3]uint64{uint64(sk), uint64(rk), ctr}
+		kind := fmt.Sprintf("data message #%d %s", n, op)
+		if old, dup := s.ctrs[k]; dup {
+			if !bytes.Equal(old.whole, whole) {
+				d := 0
+				for d < len(old.whole) && d < len(whole) && old.whole[d] == whole[d] {
+					d++
+				}
+				olog.viol("C03", "keystream-reused", fmt.Sprintf("%s (policies %d) emitted two different data messages under sender key id %d, recipient key id %d, counter %d in one session: [%s] %.24q.. (%d bytes) and [%s] %.24q.. (%d bytes), first difference at byte %d (%.16q / %.16q) - same AES-CTR keystream, the XOR of the ciphertexts is the XOR of the plaintexts", p.id, s.pol, sk, rk, ctr, old.kind, old.whole, len(old.whole), kind, whole, len(whole), d, old.whole[d:], whole[d:]))
+			}
+			continue
+		}
+		s.ctrs[k] = lcData{append([]byte{}, whole...), kind}
+	}
 }
 
 func (ll *lcLink) side(p *party) *lcSide {
@@ -48,9 +101,13 @@ func (ll *lcLink) side(p *party) *lcSide {
 // run one API call on p with the security-event oracle around it
 func (ll *lcLink) call(p *party, f func() ([]otr3.ValidMessage, []byte)) []otr3.ValidMessage {
 	before := p.c.IsEncrypted()
+	pre := otr3.VerifSnapshot(p.c)
+	op := ll.op
+	ll.op = ""
 	ts, plain := f()
 	after := p.c.IsEncrypted()
 	evs := lastEvents
+	ll.keystream(p, op, ts, evs, !bytes.Equal(pre.SSID, otr3.VerifSnapshot(p.c).SSID), pre.Resend)
 	olog.ok("C18")
 	gs, gi, ss := strings.Contains(evs, "sec:1"), strings.Contains(evs, "sec:0"), strings.Contains(evs, "sec:2")
 	desc := fmt.Sprintf("%s: encrypted %v -> %v with events %s", p.id, before, after, evs)
@@ -104,6 +161,7 @@ func (ll *lcLink) sendText(p *party, text []byte) {
 	}
 	from := len(s.wire)
 	var err error
+	ll.op = fmt.Sprintf("of Send(%.40q) while %s", text, map[bool]string{true: why, false: "not due for encryption"}[why != ""])
 	ts := ll.call(p, func() ([]otr3.ValidMessage, []byte) {
 		var ts []otr3.ValidMessage
 		ts, err = ll.w.send(p, text)
@@ -126,6 +184,11 @@ func (ll *lcLink) sendText(p *party, text []byte) {
 	if why == "require-encryption" && err == nil {
 		s.queued = append(s.queued, text)
 	}
+}
+
+func (ll *lcLink) endSession(p *party) {
+	ll.op = "of End"
+	ll.call(p, func() ([]otr3.ValidMessage, []byte) { ts, _ := ll.w.end(p); return ts, nil })
 }
 
 func (ll *lcLink) deliverOne(toB bool) bool {
@@ -200,7 +263,7 @@ func (g *gen) lifecycleScenario(w *world, steps int) {
 		case k < 21:
 			ll.settle()
 		case k < 23:
-			ll.call(p, func() ([]otr3.ValidMessage, []byte) { ts, _ := w.end(p); return ts, nil })
+			ll.endSession(p)
 		case k < 25:
 			q := w.query(p)
 			ll.side(p).wire = append(ll.side(p).wire, q)
@@ -228,6 +291,64 @@ func (g *gen) lifecycleScenario(w *world, steps int) {
 			}
 			if where := leaks(sec.text, s.wire[sec.from:]); where != "" {
 				olog.viol("C03", "text-readable-on-the-wire", fmt.Sprintf("text %q passed to Send while %s appears %s", sec.text, sec.why, where))
+			}
+		}
+	}
+}
+
+// C03 (keystream) / C18: texts passed to Send under requireEncryption before there is a session are
+// queued; the key exchange completes and releases them; one more Send follows before the peer has
+// said anything (no key rotation in between), then ordinary traffic in both directions
+func (g *gen) queuedThenSend(w *world) {
+	w.parties = map[string]*party{}
+	w.dead = false
+	common := []int{2, 4, 6}[g.r.Intn(3)]
+	pa, pb := common|8, common
+	for _, b := range []int{16, 32, 64} {
+		if g.r.Intn(3) == 0 {
+			pa |= b
+		}
+		if g.r.Intn(3) == 0 {
+			pb |= b
+		}
+	}
+	a := w.newParty(partyCfg{policies: pa, keyIdx: 0, fragSize: g.fragSize(), errh: g.r.Intn(2) == 0})
+	b := w.newParty(partyCfg{policies: pb, keyIdx: 1, fragSize: g.fragSize(), errh: g.r.Intn(2) == 0})
+	ll := &lcLink{link: &link{w: w, a: a, b: b}, sa: &lcSide{p: a, pol: pa}, sb: &lcSide{p: b, pol: pb}, delivered: map[string]int{}, g: g}
+	queued := 1 + g.r.Intn(3)
+	g.dist[fmt.Sprintf("lifecycle-queued-then-send:%d-queued", queued)]++
+	for i := 0; i < queued; i++ {
+		ll.sendText(a, g.lcText())
+	}
+	// run the key exchange up to the call in which a goes secure (and releases the queue) ...
+	for i := 0; i < 200 && !a.c.IsEncrypted() && (len(ll.qab) > 0 || len(ll.qba) > 0) && !w.dead; i++ {
+		if !ll.deliverOne(i%2 == 0) {
+			ll.deliverOne(i%2 != 0)
+		}
+	}
+	// ... and send right away, once or twice, before anything else reaches either side
+	for i := 1 + g.r.Intn(2); i > 0 && !w.dead; i-- {
+		ll.sendText(a, g.lcText())
+	}
+	ll.settle()
+	for i := g.r.Intn(3); i > 0 && !w.dead; i-- {
+		ll.sendText([]*party{a, b}[g.r.Intn(2)], g.lcText())
+		if g.r.Intn(2) == 0 {
+			ll.settle()
+		}
+	}
+	ll.settle()
+	for _, s := range []*lcSide{ll.sa, ll.sb} {
+		for _, sec := range s.secrets {
+			olog.ok("C18")
+			olog.ok("C03")
+			n := ll.delivered[string(sec.text)]
+			r := ll.delivered["[resent] "+string(sec.text)]
+			if n > 1 || r > 1 {
+				olog.viol("C18", "text-transmitted-more-than-once", fmt.Sprintf("queued-then-send: text %q (sent while %s) was delivered %d times and %d times as resent", sec.text, sec.why, n, r))
+			}
+			if where := leaks(sec.text, s.wire[sec.from:]); where != "" {
+				olog.viol("C03", "text-readable-on-the-wire", fmt.Sprintf("queued-then-send: text %q passed to Send while %s appears %s", sec.text, sec.why, where))
 			}
 		}
 	}
@@ -271,9 +392,9 @@ func (g *gen) lifecycleMotifKey(w *world, seq []int, reqEnc bool, version int) s
 				return ts, plain
 			})
 		case 2:
-			ll.call(a, func() ([]otr3.ValidMessage, []byte) { ts, _ := w.end(a); return ts, nil })
+			ll.endSession(a)
 		case 3:
-			ll.call(b, func() ([]otr3.ValidMessage, []byte) { ts, _ := w.end(b); return ts, nil })
+			ll.endSession(b)
 		case 4:
 			ll.settle()
 		case 5:
@@ -415,6 +536,9 @@ func init() {
 		g := &gen{r: rand.New(rand.NewSource(seed)), out: out, dist: map[string]int{}}
 		olog = &oracleLog{checked: map[string]int{}, out: out}
 		w := newWorld(g)
+		for i := 0; i < 2+n/100; i++ {
+			g.queuedThenSend(w)
+		}
 		runs := g.lifecycleBFS(w, n/2, true, 3)
 		runs += g.lifecycleBFS(w, n/4, false, 3)
 		runs += g.lifecycleBFS(w, n/4, true, 2)
@@ -460,6 +584,9 @@ func init() {
 			g.lifecycleScenario(w, 30+g.r.Intn(50))
 			if i%3 == 0 {
 				g.peerRestart(w)
+			}
+			if i%2 == 0 {
+				g.queuedThenSend(w)
 			}
 			// plus sampled directed histories of length 4..6
 			for k := 0; k < 3; k++ {
